@@ -492,6 +492,9 @@ func c01(c *core.Ctx) {
 		c.Check(okMax, "C01.R4", "onlyonce|max-qos", fpos(c, onlyonce), "remembers the subscription with the highest QoS", "in onlyonce mode the remembered subscription is not replaced exactly when the new one has a strictly higher QoS")
 	}
 
+	// ---- R9 every accepted QoS 1/2 PUBLISH is acknowledged (shared with C04.R1)
+	ackOnEveryPath(c, "C01.R9")
+
 	// ---- R8 entry points
 	dm := p.Func("server", "(*server).deliverMessage")
 	c.Analysed(fname(dm))
